@@ -26,7 +26,7 @@ import functools
 import numpy as np
 import os.path as osp
 import schedula as sh
-from ..ranges import Ranges
+from ..ranges import Ranges, _intersect
 from ..errors import InvalidRangeName
 from ..cell import Cell, RangesAssembler, Ref, CellWrapper, InvRangesAssembler
 from ..tokens.operand import XlError, _re_sheet_id, _re_build_id
@@ -368,6 +368,11 @@ class ExcelModel:
                 int(rng['r1']), min(int(rng['r2']), max_row),
                 rng['n1'], min(rng['n2'], max_column)
             )
+            for ref in formula_references.values():
+                # Array formula overlapping the range: load it from its anchor.
+                ref = Ranges.get_range(ref, context)
+                if ref['name'] not in done and _intersect(rng, ref):
+                    stack.append(ref['name'])
             ctx = {'external_links': external_links}
             ctx.update(context)
             cells = []
